@@ -621,6 +621,10 @@ func runGun(kv map[string]string) (obs string) {
 				result = panicClass(r)
 			}
 		}()
+		if kv["decoy"] != "0" {
+			// every gun case (so that a failing input reproduces on its own, in a fresh process)
+			runDecoyPool(kv, csvFile, jsonFile, seq)
+		}
 		p, err := newProvider(file)
 		if err != nil {
 			result = errClass(err)
@@ -757,6 +761,52 @@ func runGun(kv map[string]string) (obs string) {
 		}
 	}()
 	return result
+}
+
+// runDecoyPool (round 4; every kind=gun case unless decoy=0): ANOTHER pool of the same process — a second provider whose ammo file uses the same
+// scenario and request names with different texts (every URI is /<name>/decoy, no body, no processors) and a gun of its own
+// shoot a few times at a target of their own BEFORE the pool under observation is created. Nothing of it belongs to the
+// observation; state kept per process instead of per provider / per gun (a package-level templater or cache, a pooled
+// object) leaks from it into the observed pool.
+func runDecoyPool(kv map[string]string, csvFile, jsonFile string, seq int64) {
+	defer func() { _ = recover() }()
+	var defs []string
+	for _, r := range parseReqs(kv["rq"]) {
+		defs = append(defs, r.name+":G::cdecoy:::")
+	}
+	kv2 := map[string]string{"rq": strings.Join(defs, ";"), "sc": kv["sc"]}
+	file := fmt.Sprintf("c15-decoy-%d.yaml", seq)
+	writeFile(file, gunYAML(kv2, csvFile, jsonFile))
+	defer func() { _ = memFs.Remove(file) }()
+	p, err := newProvider(file)
+	if err != nil {
+		return
+	}
+	ammos := acquire(p, 3)
+	in := &instance{idx: 99, reqs: map[string]reqDef{}}
+	srv := httptest.NewUnstartedServer(in)
+	srv.Config.ErrorLog = nil
+	srv.Start()
+	defer srv.Close()
+	var gc gunConf
+	if err := config.Decode(map[string]any{"gun": gunOptions("", srv.Listener.Addr().String())}, &gc); err != nil {
+		return
+	}
+	g, err := gc.Gun()
+	if err != nil {
+		return
+	}
+	ctx, cancel := context.WithCancel(context.Background())
+	defer cancel()
+	if err := g.Bind(netsample.WrapAggregator(in), core.GunDeps{Ctx: ctx, Log: zap.NewNop(), InstanceID: 99, PoolID: "decoy"}); err != nil {
+		return
+	}
+	for _, a := range ammos {
+		g.Shoot(a)
+	}
+	if c, ok := g.(io.Closer); ok {
+		_ = c.Close()
+	}
 }
 
 // pauseTooLong (round 4, cases with ub=1: one instance, one scenario, every shot successful): the steps whose pause was
